@@ -120,7 +120,7 @@ mutual
   theorem len_serFv : ∀ (v : FvI), wfFv v = true → (serFv v).length = sizeFv v
     | .ffs zv v3 attrs rev rsv blocks ext files free, h => by
       simp only [wfFv, Bool.and_eq_true, beq_iff_eq, and_assoc] at h
-      obtain ⟨hz, _, _, _, _, _, _, _, hext, _, _, _, hfiles, _, _⟩ := h
+      obtain ⟨hz, _, _, _, _, _, _, _, hext, _, _, _, hfiles, _⟩ := h
       have hg : (if v3 = true then guidFFS3 else guidFFS2).length = 16 := by split <;> rfl
       have h1 := len_serFiles (preLen blocks ext) _ files hfiles
       have h2 := preBytes_length blocks ext (by
